@@ -341,3 +341,73 @@ Proof.
   exists ve. split; [exact Eve|]. rewrite Hde. cbn [off]. f_equal.
   rewrite len_concat_chunks. lia.
 Qed.
+
+(* ---- IndexedReader's seek path: Seek::seek(SeekFrom::Start(p)) = gzi query + Reader::seek, then
+   std's read_exact ---------------------------------------------------------------------------- *)
+
+Lemma firstn_plus : forall (A : Type) (a b : nat) (l : list A),
+  firstn (a + b) l = firstn a l ++ firstn b (skipn a l).
+Proof.
+  intros A a b. induction a as [|a IH]; intros l.
+  - rewrite firstn_O, skipn_O. reflexivity.
+  - destruct l as [|x l]; [rewrite skipn_nil, !firstn_nil; reflexivity|].
+    change (S a + b)%nat with (S (a + b)). rewrite !firstn_cons, skipn_cons, IH. reflexivity.
+Qed.
+
+Lemma slice_split : forall D i a b, slice D i a ++ slice D (i + a) b = slice D i (a + b).
+Proof.
+  intros. unfold slice.
+  replace (N.to_nat (a + b)) with (N.to_nat a + N.to_nat b)%nat by lia.
+  rewrite firstn_plus. f_equal. f_equal.
+  replace (N.to_nat (i + a)) with (N.to_nat a + N.to_nat i)%nat by lia.
+  symmetry. apply skipn_add.
+Qed.
+
+(* closed form of std's read_exact loop on the flat reference *)
+Lemma f_loop_closed : forall cs fuel s rem acc,
+  off s + win s <= len (concat cs) -> (N.to_nat rem < fuel)%nat ->
+  snd (f_read_loop cs fuel s rem acc)
+  = if off s + rem <=? len (concat cs) then Ok (acc ++ slice (concat cs) (off s) rem)
+    else Err UnexpectedEof.
+Proof.
+  intros cs. induction fuel as [|k IH]; intros s rem acc Hb Hf; [lia|].
+  cbn [f_read_loop]. destruct (N.eqb_spec rem 0) as [Ez|Enz].
+  - subst rem. cbn [snd]. destruct (N.leb_spec (off s + 0) (len (concat cs))); [|lia].
+    rewrite slice_zero, app_nil_r. reflexivity.
+  - unfold f_read. pose proof (refill_bound cs s Hb) as Hb1.
+    pose proof (refill_off cs s) as Ho1. set (s1 := refill cs s) in *.
+    rewrite len_slice by lia.
+    destruct (N.eqb_spec (N.min rem (win s1)) 0) as [Ez|Ez].
+    + cbn [snd]. assert (Hw1 : win s1 = 0) by lia.
+      assert (Hend : len (concat cs) <= off s).
+      { subst s1. unfold refill in Hw1. destruct (N.ltb_spec 0 (win s)) as [Hp|Hz]; [lia|].
+        cbn [win] in Hw1. apply win_at_zero in Hw1. exact Hw1. }
+      destruct (N.leb_spec (off s + rem) (len (concat cs))); [lia | reflexivity].
+    + rewrite IH; unfold f_advance; cbn [off win]; try lia.
+      rewrite Ho1.
+      replace (off s + N.min rem (win s1) + (rem - N.min rem (win s1))) with (off s + rem) by lia.
+      destruct (off s + rem <=? len (concat cs)); [|reflexivity].
+      f_equal. rewrite <- app_assoc. f_equal.
+      rewrite slice_split. f_equal. lia.
+Qed.
+
+Theorem indexed_reader_seek : forall f ops p n,
+  wf f -> total_csize f <= MAX_COMPRESSED_POSITION -> ops_valid f ops -> seeku_ok f p ->
+  let st := run_state true f (gzi_of f) (init f) ops in
+  let st1 := fst (seek_by_uncompressed_position true f (gzi_of f) st p) in
+  snd (seek_by_uncompressed_position true f (gzi_of f) st p) = Ok p /\
+  (exists v, virtual_position st1 = Ok v /\ denote f v = Some p) /\
+  snd (read_exact_std true st1 n)
+  = if p + n <=? total_dlen f then Ok (slice (concat (chunks f)) p n) else Err UnexpectedEof.
+Proof.
+  intros f ops p n Hwf Hmax Hv Hp st st1.
+  destruct (reach_inv f ops Hwf Hmax Hv) as (s & HI & _). fold st in HI.
+  destruct (seeku_refines true f st s p Hwf Hmax HI Hp) as [Hr HI1]. fold st1 in HI1.
+  split; [exact Hr|]. split.
+  - destruct (vpos_denote f st1 _ Hwf Hmax HI1) as (v & Ev & Hd). exists v. split; [exact Ev | exact Hd].
+  - destruct (read_exact_std_refines true f st1 _ n Hwf HI1 (or_introl eq_refl)) as [Hr2 _].
+    rewrite Hr2. unfold f_read_exact_std.
+    pose proof (Inv_bound _ _ _ HI1) as Hbd. rewrite <- len_concat_chunks in *.
+    rewrite f_loop_closed by (try exact Hbd; lia).
+    unfold f_seek_flat. cbn [off app]. reflexivity.
+Qed.
